@@ -211,6 +211,16 @@ def check(run: Run) -> None:
         wl = ASSERT_WHITELIST.get(fi.qual) or _BY_PATH.get(fi.qual.split(":")[1]) or inherited.get(fi.qual)
         if wl is None and isinstance(t, ast.Compare) and len(t.ops) == 1 and isinstance(t.ops[0], ast.IsNot) and isinstance(t.comparators[0], ast.Constant) and t.comparators[0].value is None and isinstance(t.left, ast.Attribute) and isinstance(t.left.value, ast.Name) and fi.cls is not None and fi.pos_params and t.left.value.id == fi.pos_params[0]:
             wl = "bookkeeping invariant of the object's own state (self.<attr> is not None)"
+        if wl is None and isinstance(t, ast.Compare) and len(t.ops) == 1 and isinstance(t.ops[0], ast.IsNot) and isinstance(t.comparators[0], ast.Constant) and t.comparators[0].value is None and isinstance(t.left, ast.Name):
+            # a local that is not None on every path to the assert (read in the function's view, where helper objects
+            # are taken apart): the assert restates what the code before it established
+            from ..lib import nonnull_at, view as _view5
+
+            for g_ in (fi, _view5(m, fi)):
+                ga = fa if g_ is fi else ctx.analysis(g_)
+                twins = [x_ for x_ in own_nodes(g_) if isinstance(x_, ast.Assert) and ast.unparse(x_) == ast.unparse(n) and ga.cfg.has_node(x_)]
+                if twins and all(t.left.id in nonnull_at(ga)[ga.cfg.node_of(x_)] for x_ in twins):
+                    return "not None on every path to the assert"
         return f"enumerated: {wl}" if wl is not None else None
 
     for fi in sorted(reach, key=lambda f: f.qual):
